@@ -44,10 +44,13 @@ Fixpoint start_pass (fuel:nat) (r:rt) (i:nat) (x:rresult) : res passres :=
   match fuel with O => Hang "start pass fuel" | S fuel' =>
     if Nat.leb (length (r_ctxs r)) i then Ok (PassDone x r)
     else
-      let r0 := set_active r (Some i) in
-      match cur r0 with
+      let r00 := set_active r (Some i) in
+      match cur r00 with
       | None => UB "context index"
-      | Some c =>
+      | Some c00 =>
+        (* a terminated script is not scheduled again: its remaining work is dropped *)
+        let c := if c_terminate c00 then set_suspended (set_values (set_frames c00 []) []) false (c_wakeup c00) else c00 in
+        let r0 := upd_cur r00 c in
         let run := fun (r1:rt) => execute_do exec_fuel r1 (r_slice r1) in
         let step :=
           if c_suspended c then
@@ -84,17 +87,23 @@ Fixpoint start_loop (fuel:nat) (r:rt) (x:rresult) : res (rresult * rt) :=
              | PassExit x1 r1 => Ok (x1, r1)
              | PassDone x1 r1 => start_loop fuel' r1 x1 end) end end.
 
+(* runtime.h begin_run_if_empty: a run starts with the first executing action on an empty runtime *)
+Definition begin_run_if_empty (r:rt) : rt :=
+  match r_state r with
+  | StEmpty => let (t, r1) := now r in set_msgs (set_errflag (set_run_ts r1 t) false) []
+  | _ => r end.
+
 Definition execute (a:action) (r:rt) : res (rresult * rt) :=
   match a with
   | AStart =>
       if r_run r then Ok (RActionError, r)
       else
-        let r0 := set_state (set_halt_req (set_exit_req (set_run r true) false) false) StRunning in
+        let r0 := set_state (set_halt_req (set_exit_req (begin_run_if_empty (set_run r true)) false) false) StRunning in
         bindr (start_loop exec_fuel r0 RInvalid) (fun '(x, r1) => Ok (x, finish_action x r1))
   | AAssemblyStep =>
       if r_run r then Ok (RActionError, r)
       else
-        let r0 := set_state (set_halt_req (set_exit_req (set_run r true) false) false) StRunning in
+        let r0 := set_state (set_halt_req (set_exit_req (begin_run_if_empty (set_run r true)) false) false) StRunning in
         bindr (execute_do exec_fuel (resolve_active r0) 1) (fun '(x, r1) => Ok (x, finish_action x r1))
   | AStop =>
       match r_state r with
@@ -205,7 +214,7 @@ Fixpoint show_code (c:code) : string :=
 (* ------------------------------------------------------------------ initial machine, loading *)
 Definition init_rt (defects:list string) (max_runtime tick:Z) (max_loop slice:nat) : rt :=
   {| r_ctxs := []; r_active := None; r_state := StEmpty; r_exit_req := false; r_halt_req := false; r_run := false;
-     r_err := false; r_msgs := []; r_out := []; r_nss := []; r_clock := 0; r_tick := tick; r_timestamp := tick;
+     r_err := false; r_msgs := []; r_out := []; r_nss := []; r_clock := 0; r_tick := tick; r_timestamp := tick; r_run_ts := tick;
      r_max_runtime := max_runtime; r_max_loop := max_loop; r_slice := slice; r_next_id := 0; r_defects := defects |}.
 (* the constructor reads the clock once (runtime.h:332) *)
 Definition create_rt (defects:list string) (max_runtime tick:Z) (max_loop slice:nat) : rt :=
